@@ -313,6 +313,24 @@ def rejecting(gt, fam_, env):
     return seen
 
 
+def positional(pat, fns):
+    """gate patterns are written with the parameter names of the reviewed tree; facts name parameters by position"""
+    mp = {}
+    for fn in fns:
+        for i in range(1, fn["argc"] + 1):
+            nm = fn["locals"][i][1]
+            if nm and (len(nm) >= 2 or nm in ()):
+                if nm in mp and mp[nm] != i:
+                    mp[nm] = None        # ambiguous across the family: leave as is (reported by ZERO if it matters)
+                elif nm not in mp:
+                    mp[nm] = i
+    for nm in sorted(mp, key=len, reverse=True):
+        if mp[nm] is None:
+            continue
+        pat = re.sub(r"(?<![A-Za-z0-9_.])(?<!::)(?<!local:)(?<!res:)(?<!call:)%s(?![A-Za-z0-9_])" % re.escape(nm), "p%d" % mp[nm], pat)
+    return pat
+
+
 def main():
     f = facts.load("x64")
     eng = gates.GateEngine(f, gates.GatePolicy(f))
@@ -328,6 +346,9 @@ def main():
             print("NO MATCH for", fam_["fn"])
             problems += 1
             continue
+        fam_ = dict(fam_)
+        fam_["gates"] = [dict(gt, src=positional(gt["src"], matched)) for gt in fam_["gates"]]
+        fam_["forbid"] = [dict(fb, src=positional(fb["src"], matched)) for fb in fam_["forbid"]]
         gl = []
         for gt in fam_["gates"]:
             mn = None
@@ -357,6 +378,33 @@ def main():
                     problems += 1
         out.append(dict(fn=fam_["fn"], props=fam_["props"], gates=gl, forbid=fam_["forbid"],
                         include_out=fam_["include_out"], optional=fam_["optional"], matched_today=len(matched)))
+    # positions of the named callee parameters (G10) and of the hash parameter (G13) on the reviewed tree
+    for ent in CALL_ARGS:
+        per = {}
+        for fn in f.fns.values():
+            nn = norm_name(fn["name"])
+            if re.fullmatch(ent["callee"], nn):
+                d = {}
+                for pn, want in ent["params"].items():
+                    for i in range(1, fn["argc"] + 1):
+                        if fn["locals"][i][1] == pn:
+                            d[str(i)] = want
+                if len(d) == len(ent["params"]):
+                    per[nn] = d
+        if not per:
+            print("CALL_ARGS: no callee with the named parameters for", ent["callee"])
+            problems += 1
+        ent["params_idx"] = per
+    for ent in NONCE_INPUT:
+        pos = set()
+        for fn in f.fns.values():
+            if re.fullmatch(ent["fn"], norm_name(fn["name"])):
+                pos |= set(i for i in range(1, fn["argc"] + 1) if fn["locals"][i][1] == ent["param"])
+        if len(pos) != 1:
+            print("NONCE_INPUT: position of", ent["param"], "not unique", pos)
+            problems += 1
+        else:
+            ent["param_idx"] = list(pos)[0]
     tab = dict(_comment="G3 required gates / G1 forbidden flows. Generated by tools/gen_gates.py from the conjunct classes written "
                "there (spec references in 'why'); 'min' = number of distinct matching check facts reaching the result on the "
                "reviewed tree.", functions=out, call_args=CALL_ARGS, independent=INDEPENDENT, failmask=FAILMASK, maskbytes=MASKBYTES, tiling=TILING, nonce_input=NONCE_INPUT)
